@@ -944,7 +944,14 @@ def check_overflow_form(run, ctx):
                 run.bad('C04-K1', '%s/%s/placement' % (flav, m), 'the store insertion neither always precedes nor always follows the limit eviction in %s' % fn.name, site=fn.name)
                 continue
             key = '%s/%s' % (flav, m)
-            if sym == want:
+            if flav == 'global' and left != 'LEN_QUEUE':
+                # the sync global cache writes the store and the queue in separate critical sections, so the two can disagree for a
+                # moment (tolerated orphans); every eviction shortens the *queue* by one, but its victim may be a key that is no longer
+                # stored - only the queue length is re-established, and |store| <= |queue| <= limit is the bound argument
+                run.bad('C04-K1', key + '/counts-the-store', 'the overflow test of %s compares %s with the limit; in the sync global cache victims are drawn from the order queue and may be keys '
+                        'that are no longer stored, so only a test on the queue length keeps the store within the limit (with the store length a Random victim that is an orphan '
+                        'leaves limit+1 entries for good)' % (ev.name, left), site='%s (%s)' % (ev.name, ev.loc(blk)), oracle='sync global: order.len() > limit')
+            elif sym == want:
                 run.ok('C04-K1', key, '%s %s %s with the new entry %s' % (left, sym, right, 'already stored' if want == '>' else 'not yet stored'))
             else:
                 run.bad('C04-K1', key + '/off-by-one', 'the overflow test is `%s %s %s` but the new entry is %s when it runs (%s): the cache would hold %s' % (
